@@ -72,12 +72,41 @@ StepAppAckCommit ==
 
 StepCrash == Ev.ev = "Crash" /\ Crash
 
+\* Free-running history (no schedule control): a node process was killed with SIGKILL at a random
+\* moment; the event carries the database as the dead process left it (cursor, stored, assoc), what
+\* the re-opened stream replayed from the frontier, the acks and publishes that had RETURNED before
+\* the kill and the last cursor seen before it.  TLC evaluates the properties on that data:
+\*   C15  replayed = stored operations of the topic with a body and seq above the persisted cursor
+\*   C15  a completed ack is durable (covered by the cursor), a completed publish is stored
+\*   C07  the persisted cursor did not move backwards across the kill
+\* and continues from that state (crash-atomicity invariants StoredIsAssociated, LogsContiguous).
+StepFreeRestart ==
+    /\ Ev.ev = "FreeRestart"
+    /\ LET S == SetOfOps(Ev.stored)
+           c == CursorOf(Ev.cursor)
+           R == SetOfOps(Ev.replayed)
+           A == SetOfOps(Ev.acked_ok)
+           prevc == CursorOf(Ev.prev_cursor)
+       IN /\ R = {o \in S : o.tp = T /\ o.body /\ o.seq > c[o.a]}
+          /\ \A o \in A : o.tp = T => c[o.a] >= o.seq
+          /\ \A k \in 1..Len(Ev.published) : MkOp(Me, T, Ev.published[k], TRUE) \in S
+          /\ \A a \in Authors : c[a] >= prevc[a]
+          /\ Len(Ev.others) = 0
+          /\ (R = {}) = (Len(Ev.markers) = 0)
+          /\ stored' = S /\ assoc' = AssocOf(Ev.assoc) /\ cursor' = c
+          /\ base' = c /\ ackd' = {}
+    /\ up' = FALSE /\ policy' = "auto" /\ pub' = IdlePub /\ pubq' = <<>> /\ st' = IdleSt /\ rq' = <<>>
+    /\ ackLock' = "none" /\ txHolder' = "none" /\ chan' = <<>> /\ app' = IdleApp
+    /\ expect' = {} /\ replayed' = {} /\ lastRes' = "none"
+    /\ nReset' = nReset + 1
+    /\ UNCHANGED <<nPub, nImp, nAck, nForeign, crashes>>
+
 TraceInit == Init /\ i = 1
 
 TraceNext ==
     /\ i <= Len(Rec)
     /\ i' = i + 1
-    /\ \/ StepReset \/ StepOpen \/ StepCrash
+    /\ \/ StepReset \/ StepOpen \/ StepCrash \/ StepFreeRestart
        \/ Plain("ForgeBegin", ForgeBegin) \/ Plain("ForgeCommit", ForgeCommit) \/ Plain("Enqueue", Enqueue)
        \/ Plain("ForgeForeign", ForgeForeign)
        \/ StepTakePublished \/ StepTakeImported
